@@ -113,24 +113,19 @@ Section Theorems.
     - cbn [map]. destruct expand_sorts_results; [apply sort_by_sorted; exact str_leb_total | constructor].
   Qed.
 
-  (** when the final list is sorted (not the case today) every expansion is sorted *)
-  Theorem expand_sorted_all comps : expand_sorts_results = true -> sorted_strs (expand ls ex ext ci dotglob comps).
-  Proof. intros H. unfold expand, final_sort. rewrite H. apply sort_by_sorted. exact str_leb_total. Qed.
+  (** the final list is sorted (a7bf7f8): every expansion is sorted, whatever the listing order *)
+  Theorem expand_sorted_all comps : sorted_strs (expand ls ex ext ci dotglob comps).
+  Proof.
+    assert (H : expand_sorts_results = true) by reflexivity.
+    unfold expand, final_sort. rewrite H. apply sort_by_sorted. exact str_leb_total.
+  Qed.
 End Theorems.
 
-(** with per-directory sorting only, two-level patterns come out in a different order than the
-    specification (whole-path order): directories a and a- *)
-Theorem multilevel_sort_refuted : expand_sorts_results = false -> expand_sorts_per_dir = true ->
-  exists names p,
-    expand_model true false false names p <> Some (expand_spec_words true false false names p) /\
-    ~ sorted_strs (match expand_model true false false names p with Some l => l | None => [] end).
-Proof.
-  intros H1 H2. vm_compute in H1, H2.
-  first [ discriminate H1 | discriminate H2 |
-    exists [lit "a/x"; lit "a-/x"], (lit "*/x"); split;
-    [ vm_compute; discriminate
-    | vm_compute; intros H; inversion H as [|? ? _ Hhd]; subst; inversion Hhd as [|? ? Hle]; subst; discriminate Hle ] ].
-Qed.
+(** regression example: directories a and a- (whole-path order, '-' before '/') *)
+Theorem multilevel_sort_repaired :
+  expand_model true false false [lit "a/x"; lit "a-/x"] (lit "*/x") = Some [lit "a-/x"; lit "a/x"] /\
+  expand_spec_words true false false [lit "a/x"; lit "a-/x"] (lit "*/x") = [lit "a-/x"; lit "a/x"].
+Proof. split; vm_compute; reflexivity. Qed.
 
 Lemma sort_flag : expand_sorts_per_dir || expand_sorts_results = true.
 Proof. reflexivity. Qed.
